@@ -209,9 +209,18 @@ pub fn run(tier: Tier, seed: u64) -> i32 {
             rows.push(1 + rng.below(100_000) as i64);
             keys.push((format!("f{:03}.parquet", i % 7), i / 7, (rng.below(3) * 1000) as i64 + (i as i64) * 0));
         }
-        // make keys unique
-        for (i, k) in keys.iter_mut().enumerate() {
-            k.2 = i as i64;
+        // keys are unique in four instances out of five; the fifth keeps
+        // repeated canonical keys (and, with tie-heavy sizes, equal bytes):
+        // "every split goes to exactly one node" holds for ANY split set
+        if r % 5 != 4 {
+            for (i, k) in keys.iter_mut().enumerate() {
+                k.2 = i as i64;
+            }
+        } else {
+            for k in keys.iter_mut() {
+                k.1 = 0;
+                k.2 = (k.2 / 1000) % 2;
+            }
         }
         let set = set_of(&sizes, &rows, &keys);
         let a = assign_lpt(&set, n);
